@@ -177,3 +177,13 @@ _extend('C10', 'ADDED (unit K-replace): REPLACE INTO deletes exactly the stored 
 _extend('C14', 'ADDED (units K-record, K-table): Database::insert_row / insert_rows_batch record one Insert entry per inserted row, in order, only after the insert succeeded; Table::remove_row - the '
         'undo of an Insert / the first half of the undo of an Update - removes exactly one row equal to the STORED FORM of the recorded row (the log holds rows as handed in, the table '
         'normalizes them: fix 2308fd7d).')
+
+_extend('C02', 'ADDED (units I-decide, I-fetch, I-insert): the decisions at the head of execute_index_scan (pushed predicate = the extracted one for the first indexed column, none for a prefix index; '
+        'WHERE re-check skipped only when where_clause_fully_satisfied_by_index vouched for that predicate) and its tail (index operation called with exactly the pushed bounds / values, rows '
+        'fetched at the returned positions, WHERE re-applied when decided, result flags) are under contract, lifted as prefix / tail fragments; Operations::insert_row maintains the indexes with '
+        'the stored row at its position. The surrounding calls are stubs with the contracts units I-range / I-scan / I-multi / I-maint prove.')
+_extend('C08', 'ADDED (unit I-fetch): an ordering is claimed for index-delivered rows only when index order IS the requested order - one direction throughout and, for ASC, no returned row with a NULL '
+        'in an ORDER BY column (fix 2d05905b); DESC reverses the whole sequence; (unit G-aggtail) after aggregation ORDER BY, then DISTINCT, then LIMIT / OFFSET are applied in that order.')
+_extend('C07', 'ADDED (unit G-aggtail, E-truthy/e_truthy_having): execute_with_aggregation from the WHERE filter on - one group without GROUP BY also over zero rows, one row per group kept by HAVING, '
+        'values in select-list order; the HAVING keep/drop table makes the same decision as the WHERE reference.')
+_extend('C10', 'ADDED (unit I-insert): user-defined UNIQUE indexes are checked before the table is touched by Operations::insert_row.')
